@@ -1,2 +1,3 @@
 pub mod dd;
+pub mod exq;
 pub mod tracked;
